@@ -468,6 +468,9 @@ func tagsOf(in Input) []string {
 		if strings.ContainsAny(s, "^$") {
 			add("anchors")
 		}
+		if isDegenerateSpec(s) {
+			add("degenerate-part")
+		}
 		if len(parts) == 1 || parts[1] == "" {
 			add("wallet-only")
 		}
@@ -584,7 +587,7 @@ func TestC13(t *testing.T) {
 		}
 		col.Count("manager:" + in.Manager)
 		for _, tg := range tags {
-			if strings.HasPrefix(tg, "alternation") || strings.HasPrefix(tg, "large-installation") || strings.HasPrefix(tg, "node-fails") || strings.HasPrefix(tg, "big:") || tg == "query-during-refresh" {
+			if strings.HasPrefix(tg, "alternation") || strings.HasPrefix(tg, "large-installation") || strings.HasPrefix(tg, "node-fails") || strings.HasPrefix(tg, "big:") || tg == "query-during-refresh" || tg == "degenerate-part" {
 				col.Count("family:" + tg)
 			}
 		}
